@@ -958,7 +958,9 @@ class WalletTransaction(Transaction):
                 sess.add(new_tx_item)
             elif key_id:
                 tx_output.key_id = key_id
-                tx_output.spent = spent if spent is not None else tx_output.spent
+                if spent is not None:
+                    # An output that is recorded as spent stays spent: this object may be older than the record
+                    tx_output.spent = bool(spent) or bool(tx_output.spent)
             self.hdwallet._commit()
         return txidn
 
